@@ -20,44 +20,34 @@ type Prop struct {
 	Technique        string
 }
 
-var worlds = map[string]*World{
-	"we": {Name: "we", Pkg: "google.golang.org/grpc/internal/zzverif/we", Mounts: map[string]string{"internal/zzverif/we": "sim/we"}},
-	"wu": {Name: "wu", Pkg: "google.golang.org/grpc/internal/zzverif/wu", Mounts: map[string]string{"internal/zzverif/wu": "sim/wu"}},
-}
+var worlds = map[string]*World{}
+var props = map[string]*Prop{}
 
-var worldOrder = []string{"wu", "we"}
+// selftestProps are the properties the determinism self-test runs by default
+// (one or two per world).
+var selftestProps []string
 
-var selftestProps = []string{"C29"}
+func regWorld(w *World) { worlds[w.Name] = w }
 
-func wu(real ...string) *Prop {
-	return &Prop{World: "wu", QuickRuns: 120000, QuickSecs: 25, ThoroughRuns: 3000000, ThoroughSecs: 420, Batch: 500, RunTimeoutS: 20,
-		Real: real, Stub: []string{"callers are harness goroutines", "clock (synctest)", "goroutine scheduler (detrt)"}}
-}
-
-func we(real ...string) *Prop {
-	return &Prop{World: "we", QuickRuns: 3000, QuickSecs: 35, ThoroughRuns: 200000, ThoroughSecs: 600, Batch: 8, RunTimeoutS: 120,
-		Real: append([]string{"grpc.ClientConn, pick_first, resolver passthrough, http2Client, loopy writer, controlbuf, flow control, stream.go", "grpc.Server, http2Server, server handler dispatch"}, real...),
-		Stub: []string{"network (simnet)", "clock (synctest)", "goroutine scheduler (detrt)", "application = scripted op lists over a raw bytes codec"}}
-}
-
-var props = map[string]*Prop{
-	"C01": we().doc(
-		"Seeded search over schedules, network segmentations/stalls/cuts and application scripts with a real client and a real server; an independent HTTP/2 decoder on the wire keeps, per sender, the peer-granted connection and stream windows (grants count from delivery, emissions from write) and flags any DATA beyond them, any DATA frame > 16 KiB and any header fragment > the peer's MAX_FRAME_SIZE.",
-		"Trusted: x/net/http2 Framer+hpack as the independent decoder, simnet, detrt. Window sizes below 64 KiB, SETTINGS changes mid-stream and adversarial WINDOW_UPDATE orders need the scripted peer (WT world).",
-		"wire-tap window ledger over real client<->server runs"),
-	"C02": we().doc(
-		"Same runs as C01 with attributable payload bytes (a function of rpc, direction, message index, offset): the tap re-assembles each stream's DATA into gRPC messages and compares every byte, message length and message count with what the application submitted; END_STREAM exactly once, no DATA/HEADERS after own END_STREAM or RST_STREAM; under cancellation, resets, cuts and server stop a stream may end at any prefix but never skip, repeat or reorder.",
-		"Trusted: as C01. Completeness is asserted for streams that ended normally (END_STREAM without RST).",
-		"wire-tap per-stream byte ledger with attributable payloads"),
-	"C29": wu("internal/idle.Manager (all of idle.go)").doc(
-		"Seeded search over interleavings of the atomic steps of OnCallBegin/OnCallEnd/timer callback/ExitIdleMode/Close of the real idle.Manager (every atomic and lock is a scheduling point), with idle timeouts of nanoseconds so expiry races with calls; oracle checked at every enforcer callback and every call boundary. Sampling, not proof.",
-		"Trusted: detrt runtime patch, synctest clock, the oracle. clientconn.go's use of the manager is exercised separately in the end-to-end world.",
-		"seeded schedule search over the real idle.Manager with a recording enforcer"),
+func regProp(id string, p *Prop) {
+	if props[id] != nil {
+		panic("duplicate property " + id)
+	}
+	props[id] = p
 }
 
 func (p *Prop) doc(level, note, technique string) *Prop {
 	p.LevelText, p.LevelNote, p.Technique = level, note, technique
 	return p
+}
+
+func worldOrder() []string {
+	var ws []string
+	for w := range worlds {
+		ws = append(ws, w)
+	}
+	sort.Strings(ws)
+	return ws
 }
 
 func propOrder() []string {
